@@ -18,17 +18,17 @@ import proj
 from vlib import *
 
 LEVEL = "proof"
-THEOREMS = ["atomic_files_whole", "plan_atomic_files_whole", "read_blob_exact", "damage_is_miss",
-            "manifest_damage_is_miss", "C05_truncated_output_survives", "C05_atomic_write_alone_leaves_map",
-            "C05_revert_keeps_crashed_output", "C05_blob_payload_not_verified", "C05_diag_blob_damage_drops_warnings",
-            "recovery_partial", "recovery_fixed", "recovery_fixed_closed", "damage_recovery"]
+THEOREMS = ["atomic_files_whole", "plan_atomic_files_whole", "read_blob_exact", "damage_is_miss", "diag_damage_is_miss",
+            "manifest_damage_is_miss", "purged_blob_was_a_miss", "C05_truncated_output_survives",
+            "C05_atomic_write_alone_leaves_map", "C05_revert_keeps_crashed_output", "old_blob_payload_not_verified",
+            "old_diag_blob_damage_drops_warnings", "recovery_partial", "recovery_fixed", "recovery_fixed_closed",
+            "damage_recovery"]
 
 KEY_TRUNC = "crash:truncated-output-kept-as-hit"
 KEY_MAP = "crash:map-missing-next-to-complete-sv-kept-as-hit"
 KEY_REVERT = "crash:output-of-crashed-run-kept-after-revert"
-KEY_DIAG = "damage:diagnostics-blob-unreadable-warnings-dropped"
-KEY_FLIP = "damage:blob-payload-corruption-accepted"
-KEY_FLIP_PANIC = "damage:blob-payload-corruption-panic"
+# (repaired in /repo by 7005a14 and 1f0da8d, so a recurrence is a plain violation:
+#  damage:diagnostics-blob-unreadable-warnings-dropped, damage:blob-payload-corruption-accepted / -panic)
 
 SYSC = "openat,write,rename,renameat,renameat2,unlink,unlinkat,fchmod,mkdir"
 WORKERS = int(os.environ.get("VERIF_C05_WORKERS", "8"))
@@ -209,6 +209,16 @@ def sc_delboth(root, files, xdg):
     os.remove(f"{root}/src/mid.sv.map")
 
 
+def sc_dmgfrag(root, files, xdg):
+    """warm tree with one bit of leaf's fragment payload flipped (read_blob must reject and remove it)"""
+    veryl(root, ["build"], xdg)
+    man = load_manifest(root)
+    rel = ".build/cache/" + man[os.path.join(root, "src/leaf.veryl")]["fragment"]
+    apply_damage(os.path.join(root, rel), ("flip", "half"), 0)
+    with open(f"{root}/.c05_damaged", "w") as fh:
+        fh.write(rel + "\n")
+
+
 def post_none(root, files, st):
     return None
 
@@ -262,9 +272,10 @@ SCENARIOS = {
     "toml-revert": ("plain", sc_toml, "build", post_toml_revert, ["build"]),
     "revert-mtime": ("plain", sc_revert, "build", post_revert_mtime, ["build"]),
     "edit-big": ("big", sc_edit, "build", post_none, ["build"]),
+    "dmgfrag": ("plain", sc_dmgfrag, "build", post_none, ["build"]),
 }
 QUICK = ["cold", "edit", "delsv", "check", "delboth"]
-THOROUGH = QUICK + ["edit+edit", "cold-warn", "toml-revert", "revert-mtime", "edit-big"]
+THOROUGH = QUICK + ["edit+edit", "cold-warn", "toml-revert", "revert-mtime", "edit-big", "dmgfrag"]
 
 
 def variant_files(v):
@@ -449,28 +460,40 @@ def canon_word(word):
     return out
 
 
-def model_request(root, ids, before, after, man_before, man_after, cmd):
-    """The decisions, read from the disk before/after the run (not from the trace)."""
+def model_request(root, ids, before, after, man_before, man_after, cmd, damaged=()):
+    """The decisions, read from the disk before/after the run (not from the trace).  `damaged`: blob files
+    the scenario corrupted (`read_blob` removes them when `try_restore` reaches them)."""
     bids = blob_ids(root, ids, man_after, man_before)
 
     def written(rel):
         return rel in after and (rel not in before or before[rel][:2] != after[rel][:2])
-    new_blobs = sorted(r for r in after if r.endswith(".frag") and r not in before)
-    frag = sorted(bids[r] for r in new_blobs if r in bids and bids[r] < 1000)
+    new_blobs = sorted(r for r in after if r.endswith(".frag") and (r not in before or before[r][:2] != after[r][:2] or r in damaged))
+    newfrag = set(bids[r] for r in new_blobs if r in bids and bids[r] < 1000)
     diag = sorted(bids[r] for r in new_blobs if r in bids and bids[r] >= 1000)
+    frag = []                     # pass-1 loop in path order: purge(s) of file i, then its new fragment blob
+    for s_, i in sorted(ids.items(), key=lambda kv: kv[1]):
+        e = man_before.get(os.path.join(root, s_), {})
+        fr = ".build/cache/" + e["fragment"] if e.get("fragment") else None
+        dg = ".build/cache/" + e["diagnostics"] if e.get("diagnostics") else None
+        if fr in damaged:
+            frag.append(f"p{i}")
+        elif dg in damaged:
+            frag.append(f"p{1000 + i}")
+        if i in newfrag:
+            frag.append(str(i))
     outs = []
     for s, i in sorted(ids.items(), key=lambda kv: kv[1]):
         if written(s[:-6] + ".sv"):
             outs.append(f"s{i}")
         if written(s[:-6] + ".sv.map"):
             outs.append(f"m{i}")
-    gone = sorted(r for r in before if r.endswith(".frag") and r not in after)
+    gone = sorted(r for r in before if r.endswith(".frag") and r not in after and r not in damaged)
     gc = sorted(str(bids.get(r, "?")) for r in gone)
     req = "steps i [{}] [{}] {} [{}] {} [{}] {}".format(
         ",".join(map(str, frag)), ",".join(outs), 1 if written("prj.f") else 0, ",".join(map(str, diag)),
         1 if written(".build/cache/manifest.toml") else 0, ",".join(gc),
         1 if written(".build/info.toml") else 0)
-    return req, bids, len(new_blobs) - len(frag) - len(diag)
+    return req, bids, len(new_blobs) - len(newfrag) - len(diag)
 
 
 def reference_run(base, scen, xdg):
@@ -485,7 +508,8 @@ def reference_run(base, scen, xdg):
     aevs = abstract(evs, t.root)
     after = disk_state(t.root)
     man_after = load_manifest(t.root)
-    req, bids, unmapped = model_request(t.root, ids, before, after, man_before, man_after, t.cmd)
+    damaged = (read_file(f"{t.root}/.c05_damaged") or b"").decode().split()
+    req, bids, unmapped = model_request(t.root, ids, before, after, man_before, man_after, t.cmd, damaged)
     word = observed_word(aevs, t.root, ids, bids)
     inplace = sorted(set(p for k, p, d in aevs if k == "T"))
     # how many invocations of each syscall to enumerate: up to the last one that touches the project directory
@@ -742,13 +766,10 @@ def damage_case(t, xdg, role, op, edit, seed, clean):
     if not apply_damage(os.path.join(t.root, rel), op, seed):
         res["skipped"] = "no-op on this file"
         return res
-    # what the damaged file looks like to `read_blob` (taken now: a later `save` may re-serialise and gc it)
+    # what the damaged file looks like to `read_blob` (taken now: read_blob removes a file that fails its hash)
     data, orig = read_file(os.path.join(t.root, rel)), read_file(os.path.join(t.pre, rel))
     res["payload_only"] = bool(data is not None and orig is not None and len(data) == len(orig)
                                and data[:8] == orig[:8] and data != orig and rel.endswith(".frag"))
-    if res["payload_only"]:
-        h = hx_hash(os.path.join(t.root, rel))
-        res["name_is_hash"] = None if h is None else (h == os.path.basename(rel)[:-5])
     apply_edit(t, edit)
     obs = observe(t.root, t.recover, xdg)
     outs = outputs(t.root)
@@ -757,57 +778,20 @@ def damage_case(t, xdg, role, op, edit, seed, clean):
     d = compare(obs, outs, cobs, couts)
     res["diff"] = d
     if d:
-        res["detail"] = {"obs_tail": [o["tail"][-800:] for o in obs], "obs_full": [o["tail"] for o in obs], "files": dict(t.files)}
-        res["key"] = classify_damage(t, res, role, obs, cobs, outs, couts)
-        del res["detail"]["obs_full"]
+        res["detail"] = {"obs_tail": [o["tail"][-800:] for o in obs], "files": dict(t.files)}
+        res["panic_sites"] = sorted(set(re.findall(r"panicked at ([^\n]*)", "\n".join(o["tail"] for o in obs))))
     return res
-
-
-def classify_damage(t, res, role, obs, cobs, outs, couts):
-    """Verified signatures of the recorded damage findings.
-    KEY_FLIP: the damaged file is a fragment/diagnostics blob whose 8-byte header is intact and whose size is
-      unchanged, but whose BLAKE3 no longer equals its file name (`read_blob` checks magic+version only and
-      the decoder accepted the payload); the run does not panic.  What then differs (diagnostics, exit
-      status, the filelist, an output that a failed build did not refresh) depends on the byte.
-    KEY_FLIP_PANIC: the same damage, and the analyzer panics on the restored state (sites recorded).
-    KEY_DIAG: the damaged file is the blob an entry names as `diagnostics` and is no longer readable as a
-      blob; its source was not edited and is still restored; exactly the diagnostics located in that source
-      are missing from `check`; outputs are right; nothing else differs."""
-    if res.get("payload_only") and any(o["panic"] for o in obs) and res.get("name_is_hash") is not True:
-        res["panic_sites"] = sorted(set(re.findall(r"panicked at ([^\n]*)", "\n".join(res["detail"]["obs_full"]))))
-        return KEY_FLIP_PANIC
-    if any(o["panic"] for o in obs):
-        return None
-    if res.get("payload_only"):
-        if res.get("name_is_hash") is True:
-            return None
-        res["flip_hash_check"] = ("blake3(file) != file name" if res.get("name_is_hash") is False
-                                  else "bytes differ from the saved blob (hx unavailable)")
-        return KEY_FLIP
-    if role.startswith("diag:") and res["diff"][0] in ("status", "diags") and outs == couts:
-        src = f"src/{role[5:]}.veryl"
-        if t.files.get(src) != t.pre_files.get(src):
-            return None
-        chk, cchk = obs[0], cobs[0]
-        if chk["restored"] is None or chk["restored"][0] < 1:
-            return None
-        missing = [d for d in cchk["diags"] if d not in chk["diags"]]
-        extra = [d for d in chk["diags"] if d not in cchk["diags"]]
-        if extra or not missing:
-            return None
-        if all(d[3].startswith(f"<ROOT>/{src}:") for d in missing) and \
-                not any(d[3].startswith(f"<ROOT>/{src}:") for d in chk["diags"]):
-            return KEY_DIAG
-    return None
 
 
 # ---------------------------------------------------------------------------------------------
 
-QUICK_CLASSES = {"cold": ["write", "renameat"], "edit": ["write", "openat", "renameat", "unlink"],
-                 "delsv": ["write", "openat", "renameat", "unlink"], "delboth": ["write", "openat", "renameat", "unlink"],
-                 "check": ["write", "renameat", "unlink"]}
+# quick tier: every write of the warm scenarios (each kill leaves one distinct torn state), the opens of the
+# deleted-both scenario (the only place where "between two outputs" matters), every rename of edit/check, and a
+# spread over the cold build; the thorough tier enumerates every class in every scenario
+QUICK_CLASSES = {"cold": ["write", "renameat"], "edit": ["write", "renameat"], "delsv": ["write"],
+                 "delboth": ["write", "openat"], "check": ["write", "renameat"]}
 ALL_CLASSES = ["write", "openat", "renameat", "fchmod", "mkdir", "unlink"]
-QUICK_LIMIT = {("cold", "write"): 9}      # quick tier: a spread of the cold build's writes (no cache exists yet)
+QUICK_LIMIT = {("cold", "write"): 6, ("cold", "renameat"): 5}   # a spread (no cache exists yet in a cold build)
 
 
 def chunks(xs, n):
@@ -823,13 +807,14 @@ def run(ctx):
         "strace (syscall-entry SIGKILL injection: the killed syscall does not execute), rename atomicity of the file system, "
         "tools/proj.py, checks/c05.py"]
     ctx.cov["rule"] = ("(0) project-dir syscall word of an uncrashed run = model step word (vmodel crash) per scenario; "
-                       "(a) kill `veryl build|check` at its j-th write / open(in-place file) / renameat / unlink (thorough: + fchmod, "
-                       "mkdir, every class in every scenario) for all j until the run survives; scenarios cold / warm-after-edit / "
+                       "(a) kill `veryl build|check` at its j-th write (every j of the warm scenarios), open of an in-place file, "
+                       "renameat (thorough: + unlink, fchmod, mkdir, every class in every scenario, all j until the run survives); scenarios cold / warm-after-edit / "
                        "deleted .sv / deleted .sv+.map / check (thorough: + edit after the crash, warnings, Veryl.toml "
-                       "change+revert, mtime-preserving revert, larger project); then build and compare outputs, exit status "
-                       "and diagnostic set with a clean build of the same sources; (b) every file under .build truncated "
-                       "{0,1,7,8,n/2,n-1} / bit-flipped at 7 offsets / garbage / deleted, then check + build vs clean "
-                       "(thorough: x further edits, all fragments); distinct = distinct (scenario, killed syscall) and "
+                       "change+revert, mtime-preserving revert, larger project, a corrupted fragment blob); then build and compare outputs, exit status "
+                       "and diagnostic set with a clean build of the same sources; (b) files under .build (manifest, info.toml, "
+                       "diagnostics blob, fragments, locks) truncated / bit-flipped / garbage / deleted (quick: 33 picked cases; "
+                       "thorough: {0,1,7,8,n/2,n-1} x 7 flip offsets x all fragments x further edits + a 128-position payload "
+                       "sweep), then check + build vs clean; distinct = distinct (scenario, killed syscall) and "
                        "(file role, damage, edit) cases")
     if not cli_build(ctx):
         return
@@ -892,7 +877,7 @@ def run(ctx):
                 lim = None if thorough else QUICK_LIMIT.get((r["scen"], cls))
                 if lim and len(js) > lim:
                     js = sorted(set(js[::max(1, len(js) // (lim - 4))][:lim - 4] + js[-4:]))
-                parts = chunks(js, 6)
+                parts = chunks(js, 6 if thorough else 9)
                 for k, js in enumerate(parts):
                     jobs.append((base, xdg, r["scen"], cls, js, k == len(parts) - 1, r["inplace"], r["clean"], len(jobs)))
         random.Random(ctx.seed).shuffle(jobs)
@@ -945,13 +930,21 @@ def run(ctx):
 
         # ---- (b) damage ----------------------------------------------------------------------
         roles_quick = ["manifest", "info", "diag:leaf", "frag:leaf", "frag:pkg_a", "lock", "cachelock"]
+        ops_quick = {"manifest": [("trunc", 0), ("trunc", "half"), ("flip", "half"), ("flip", "q3"), ("garbage", 0), ("delete", 0)],
+                     "info": [("trunc", 0), ("trunc", "half"), ("flip", "half"), ("garbage", 0), ("delete", 0)],
+                     "diag:leaf": [("trunc", 0), ("trunc", 8), ("trunc", "m1"), ("flip", 5), ("flip", 8), ("flip", "half"),
+                                   ("garbage", 0), ("delete", 0)],
+                     "frag:leaf": [("trunc", 7), ("trunc", "half"), ("flip", 0), ("flip", "q"), ("flip", "half"), ("flip", "q3"),
+                                   ("flip", "m1"), ("delete", 0)],
+                     "frag:pkg_a": [("trunc", 8), ("flip", "q"), ("flip", "half"), ("garbage", 0)],
+                     "lock": [("delete", 0)], "cachelock": [("garbage", 0)]}
         roles_all = roles_quick + ["frag:alone", "frag:if_a", "frag:mid", "frag:pkg_b", "frag:top"]
         cases = []
         if thorough:        # one bit at 128 evenly spread payload positions of one fragment
             for k in range(128):
                 cases.append(("frag:leaf", ("flipfrac", k), None, ctx.seed + k))
         for role in (roles_all if thorough else roles_quick):
-            for op in damage_ops(True):
+            for op in (damage_ops(True) if thorough else ops_quick[role]):
                 if role in ("lock", "cachelock") and (op[0] == "flip" or (op[0] == "trunc" and op[1] != 0)):
                     continue
                 for e in edits:
@@ -959,11 +952,10 @@ def run(ctx):
         if os.environ.get("VERIF_C05_DAMAGE"):      # development aid: first N cases
             cases = cases[:int(os.environ["VERIF_C05_DAMAGE"])]
         random.Random(ctx.seed).shuffle(cases)
-        djobs = [(base, xdg, c, dcleans, i) for i, c in enumerate(chunks(cases, 6))]
+        djobs = [(base, xdg, c, dcleans, i) for i, c in enumerate(chunks(cases, 6 if thorough else 5))]
         with ThreadPoolExecutor(max_workers=WORKERS) as ex:
             dres = [x for chunk in ex.map(damage_chunk, djobs) for x in chunk]
         ctx.log(f"damage cases done ({len(dres)} cases, {round(time.time() - ctx.t0)} s)")
-        dfind = {}
         for r in dres:
             if r.get("skipped"):
                 bump("damage_skipped_noop")
@@ -971,6 +963,10 @@ def run(ctx):
             ctx.cov["evaluations"] += 1
             ctx.distinct(("damage", r["role"], r["op"], r["edit"]))
             bump("damage_" + r["role"].split(":")[0])
+            if r.get("payload_only"):
+                bump("damage_payload_only_flips")
+            if r["role"].startswith(("frag", "diag")) and r["obs"][0]["restored"]:
+                bump("damaged_blob_file_missed" if r["obs"][0]["restored"][0] < r["obs"][0]["restored"][1] else "damaged_blob_all_restored")
             if sum(1 for s_ in ctx.cov["samples"] if isinstance(s_, dict) and "damage" in s_) < 2 and r["role"].startswith("frag"):
                 ctx.sample({"damage": f"{r['role']} {r['op']}", "file": r["rel"], "len": r["len"], "runs": r["obs"],
                             "differs_from_clean": bool(r["diff"])})
@@ -980,21 +976,11 @@ def run(ctx):
                     "how": ["project = files above (default Veryl.toml of tools/proj.py); veryl build",
                             f"damage {r['rel']} ({r['role']}, {r['len']} bytes): {r['op']}",
                             f"edit: {r['edit']}", "veryl check ; veryl build  -- compare with the same on a fresh copy"],
-                    "difference": r["diff"][1], "runs": r["obs"], "output_tail": r["detail"]["obs_tail"], "signature": r.get("key"),
-                    "panic_sites": r.get("panic_sites"), "hash_check": r.get("flip_hash_check")}
-            key = r.get("key")
-            if key:
-                bump("finding_" + key)
-                dfind.setdefault(key, []).append(body)
-            elif nviol < 8:
+                    "difference": r["diff"][1], "runs": r["obs"], "output_tail": r["detail"]["obs_tail"],
+                    "payload_only": r.get("payload_only"), "panic_sites": r.get("panic_sites")}
+            if nviol < 8:
                 nviol += 1
                 ctx.violation(f"damage {r['role']} {r['op']} (edit {r['edit']}): {r['diff'][1]}", body)
-        for key, bodies in sorted(dfind.items()):
-            b = dict(bodies[0])
-            b["cases_with_this_signature"] = len(bodies)
-            b["all_damages"] = [x["how"][1] + (f" + edit {x['how'][2]}" if "None" not in x["how"][2] else "") for x in bodies][:40]
-            b["all_panic_sites"] = sorted(set(y for x in bodies for y in (x.get("panic_sites") or [])))
-            ctx.violation(f"{len(bodies)} damage case(s) — {key}: {bodies[0]['difference']}", b, key=key)
         ctx.cov["distribution"] = hist
     finally:
         shutil.rmtree(base, ignore_errors=True)
